@@ -13,6 +13,7 @@ package c14
 
 import (
 	"bytes"
+	"math/rand"
 	"encoding/json"
 	"fmt"
 	"math"
@@ -117,6 +118,10 @@ func init() {
 		rr = append(rr, r)
 	}
 	sampleTexts = append(sampleTexts, string(rr))
+	// glyphs of width zero where a font has them: NUL (Go fonts: "uni0000"), combining
+	// marks, zero width space / joiner / no-break space
+	// (first: low slots, so that every walk reaches them)
+	sampleTexts = append([]string{"a\x00b\u0301c\u0308d\u200be\u200df\ufeffg\u0300\u0302\u0303\u0327"}, sampleTexts...)
 }
 
 type pair struct {
@@ -163,6 +168,11 @@ func variant(k fontKind, t string, slot, tv int) string {
 		}
 		return t
 	}
+	if !k.Simple && tv == 5 {
+		// composite fonts with the fixed CMap: a glyph shown without text (a caller
+		// showing a glyph by its ID, the tail of a one-to-many substitution)
+		return ""
+	}
 	switch tv {
 	case 2:
 		if t == " " {
@@ -190,6 +200,10 @@ type step struct {
 	Op    string `json:"op"`
 	F     int    `json:"f"`
 	Items []item `json:"items"`
+	// decoration of the one TextShowGlyphs call of a Show: number of rise changes
+	// inside the glyph sequence, and 1 = no / 2 = some / 3 = many adjusted advances
+	Rises int `json:"rises"`
+	Kern  int `json:"kern"`
 }
 type behaviour struct {
 	Kind  string `json:"kind"`
@@ -221,6 +235,8 @@ type event struct {
 	W     int     `json:"w"`
 	WT    []int   `json:"wt"`
 	Pairs []pairJ `json:"pairs"`
+	// Shape of a show (for the violation key): "plain", "kerning", "rise-change", "rise-change+kerning"
+	Shape string  `json:"shape"`
 	Codes []codeJ `json:"codes"`
 	Chars []charJ `json:"chars"`
 }
@@ -364,7 +380,8 @@ func execute(dc *docCase, kinds map[string]fontKind) (rec record, herr error) {
 		}
 		rec.Events = append(rec.Events, e)
 	}
-	show := func(f int, ps []pair) {
+	nShow := 0
+	show := func(f int, ps []pair, rises, kern int) {
 		if cur != f {
 			doc.TextSetFont(fonts[f], 10)
 			cur = f
@@ -375,6 +392,45 @@ func execute(dc *docCase, kinds map[string]fontKind) (rec record, herr error) {
 			e.Pairs = append(e.Pairs, pairJ{p.GID, runes(p.Text)})
 			seq.Seq = append(seq.Seq, font.Glyph{GID: glyphID(p.GID), Text: p.Text, Advance: advanceOf(fonts[f], p)})
 		}
+		// decoration: the positions follow from the number of the show, so that a
+		// replay shows the same sequence
+		nShow++
+		lr := rand.New(rand.NewSource(int64(nShow)*7919 + int64(len(ps))))
+		n := len(seq.Seq)
+		kerned, risen := false, false
+		if kern > 1 && n > 0 {
+			for i := range seq.Seq {
+				if kern == 3 && i%2 == 0 || kern == 2 && lr.Intn(3) == 0 {
+					seq.Seq[i].Advance -= 0.2 + 0.1*float64(lr.Intn(6))
+					kerned = true
+				}
+			}
+		}
+		if rises > 0 && n > 1 {
+			cuts := map[int]bool{}
+			for k := 0; k < rises; k++ {
+				cuts[1+lr.Intn(n-1)] = true
+			}
+			rise := 0.0
+			for i := range seq.Seq {
+				if cuts[i] {
+					rise = 3 - rise
+					risen = true
+				}
+				seq.Seq[i].Rise = rise
+			}
+		}
+		switch {
+		case risen && kerned:
+			e.Shape = "rise-change+kerning"
+		case risen:
+			e.Shape = "rise-change"
+		case kerned:
+			e.Shape = "kerning"
+		default:
+			e.Shape = "plain"
+		}
+		// one call: a rise change makes TextShowGlyphs emit several Tj/TJ operators
 		doc.TextShowGlyphs(seq)
 		doc.TextSecondLine(0, -1)
 		rec.Events = append(rec.Events, e)
@@ -427,7 +483,8 @@ func execute(dc *docCase, kinds map[string]fontKind) (rec record, herr error) {
 		case "showall":
 			// every pair offered to the font so far, sixteen per text-showing operator
 			for lo := 0; lo < len(order[f]); lo += 16 {
-				show(f, order[f][lo:min(lo+16, len(order[f]))])
+				k := lo / 16
+				show(f, order[f][lo:min(lo+16, len(order[f]))], []int{0, 1, 0, 2, 3, 0}[k%6], []int{1, 3, 2, 1, 3, 2}[(k/2)%6])
 				if rec.Err != "" {
 					return rec, nil
 				}
@@ -466,7 +523,7 @@ func execute(dc *docCase, kinds map[string]fontKind) (rec record, herr error) {
 		if st.Op != "show" {
 			continue
 		}
-		show(f, ps)
+		show(f, ps, st.Rises, st.Kern)
 		if rec.Err != "" {
 			return rec, nil
 		}
@@ -532,67 +589,89 @@ func execute(dc *docCase, kinds map[string]fontKind) (rec record, herr error) {
 		chars = append(chars, charJ{W: micro(cd.Width), T: runes(cd.Text)})
 		return nil
 	}
+	// every Show is followed by a Td: the Tj/TJ operators up to the next Td (or font
+	// change, or the end of the text object) are what one TextShowGlyphs call wrote
+	var pending pdf.String
+	var pendingName pdf.Name
+	havePending := false
+	flush := func() error {
+		if !havePending {
+			return nil
+		}
+		s, name := pending, pendingName
+		pending, havePending = nil, false
+		fi, ok := names[name]
+		if !ok {
+			return fmt.Errorf("text shown with unknown font %q", name)
+		}
+		inst := extracted[name]
+		if inst == nil {
+			return fmt.Errorf("font %q not extracted", name)
+		}
+		e := newEvent("read", fi+1)
+		// split the string with the extracted font's codec, decode with its Codes
+		codec := inst.Codec()
+		var pieces [][]int
+		for rest := []byte(s); len(rest) > 0; {
+			_, k, _ := codec.Decode(rest)
+			if k <= 0 {
+				k = 1
+			}
+			pieces = append(pieces, ints(rest[:k]))
+			rest = rest[k:]
+		}
+		i := 0
+		for info := range inst.Codes(s) {
+			cj := codeJ{C: []int{}, W: micro(info.Width), T: runes(info.Text)}
+			if i < len(pieces) {
+				cj.C = pieces[i]
+			}
+			e.Codes = append(e.Codes, cj)
+			i++
+		}
+		if i != len(pieces) {
+			e.Codes = append(e.Codes, codeJ{C: []int{}, T: []int{}}) // the judge sees the disagreement
+		}
+		e.Chars = append(e.Chars, chars...)
+		chars = nil
+		rec.Events = append(rec.Events, e)
+		return nil
+	}
 	rd.EveryOp = func(op string, args []pdf.Object) error {
 		switch op {
 		case "Tf":
+			if err := flush(); err != nil {
+				return err
+			}
 			if len(args) > 0 {
 				if n, ok := args[0].(pdf.Name); ok {
 					curName = n
 				}
 			}
+		case "Td", "TD", "T*", "ET", "BT", "Tm":
+			return flush()
 		case "Tj", "TJ":
-			var s pdf.String
+			if !havePending {
+				havePending, pendingName = true, curName
+			}
 			for _, a := range args {
 				switch v := a.(type) {
 				case pdf.String:
-					s = append(s, v...)
+					pending = append(pending, v...)
 				case pdf.Array:
 					for _, el := range v {
 						if str, ok := el.(pdf.String); ok {
-							s = append(s, str...)
+							pending = append(pending, str...)
 						}
 					}
 				}
 			}
-			fi, ok := names[curName]
-			if !ok {
-				return fmt.Errorf("text shown with unknown font %q", curName)
-			}
-			inst := extracted[curName]
-			if inst == nil {
-				return fmt.Errorf("font %q not extracted", curName)
-			}
-			e := newEvent("read", fi+1)
-			// split the string with the extracted font's codec, decode with its Codes
-			codec := inst.Codec()
-			var pieces [][]int
-			for rest := []byte(s); len(rest) > 0; {
-				_, k, _ := codec.Decode(rest)
-				if k <= 0 {
-					k = 1
-				}
-				pieces = append(pieces, ints(rest[:k]))
-				rest = rest[k:]
-			}
-			i := 0
-			for info := range inst.Codes(s) {
-				cj := codeJ{C: []int{}, W: micro(info.Width), T: runes(info.Text)}
-				if i < len(pieces) {
-					cj.C = pieces[i]
-				}
-				e.Codes = append(e.Codes, cj)
-				i++
-			}
-			if i != len(pieces) {
-				e.Codes = append(e.Codes, codeJ{C: []int{}, T: []int{}}) // the judge sees the disagreement
-			}
-			e.Chars = append(e.Chars, chars...)
-			chars = nil
-			rec.Events = append(rec.Events, e)
 		}
 		return nil
 	}
 	if err := rd.ProcessPage(pg); err != nil {
+		rec.Err = "ProcessPage: " + err.Error()
+	} else if err := flush(); err != nil {
 		rec.Err = "ProcessPage: " + err.Error()
 	}
 	return rec, nil
@@ -952,10 +1031,23 @@ func classify(r *record, tolerant bool) (string, string) {
 		return strings.ReplaceAll(l, "/", "-")
 	}
 	type want struct {
-		f  int
-		cs [][]int
+		f     int
+		cs    [][]int
+		shape string
 	}
 	var queue []want
+	// what was wrong with a string read back; shows with rise changes / adjusted
+	// advances (several operators, numbers inside TJ arrays) form their own classes
+	rkey := func(w want, what string, f int) string {
+		if w.shape != "" && w.shape != "plain" {
+			if what == "code-count" || what == "code-split" || what == "character-count" {
+				// the strings in the content stream are wrong: the builder's business, not the font's
+				return "show/" + w.shape + "/" + what
+			}
+			return "show/" + w.shape + "/" + what + "/" + kindOf(f)
+		}
+		return "read/" + what + "/" + kindOf(f)
+	}
 	reads := 0
 	for _, e := range r.Events {
 		t := tabs[e.F-1]
@@ -1008,7 +1100,7 @@ func classify(r *record, tolerant bool) (string, string) {
 				}
 			}
 			if len(cs) > 0 {
-				queue = append(queue, want{e.F, cs})
+				queue = append(queue, want{e.F, cs, e.Shape})
 			}
 		case "read":
 			if reads >= len(queue) {
@@ -1017,21 +1109,21 @@ func classify(r *record, tolerant bool) (string, string) {
 			w := queue[reads]
 			reads++
 			if w.f != e.F || len(e.Codes) != len(w.cs) {
-				return "read/code-count/" + kindOf(e.F), fmt.Sprintf("a string of %d codes reads back as %d codes", len(w.cs), len(e.Codes))
+				return rkey(w, "code-count", e.F), fmt.Sprintf("a string of %d codes reads back as %d codes", len(w.cs), len(e.Codes))
 			}
 			if len(e.Chars) != len(w.cs) {
-				return "read/character-count/" + kindOf(e.F), fmt.Sprintf("a string of %d codes gives %d Character callbacks", len(w.cs), len(e.Chars))
+				return rkey(w, "character-count", e.F), fmt.Sprintf("a string of %d codes gives %d Character callbacks", len(w.cs), len(e.Chars))
 			}
 			for i, c := range w.cs {
 				inf := tabs[e.F-1].info[fmt.Sprint(c)]
 				if fmt.Sprint(e.Codes[i].C) != fmt.Sprint(c) {
-					return "read/code-split/" + kindOf(e.F), fmt.Sprintf("code %v is read back as %v", c, e.Codes[i].C)
+					return rkey(w, "code-split", e.F), fmt.Sprintf("code %v is read back as %v", c, e.Codes[i].C)
 				}
 				if fmt.Sprint(e.Codes[i].T) != fmt.Sprint(inf.T) || fmt.Sprint(e.Chars[i].T) != fmt.Sprint(inf.T) {
-					return "read/text/" + kindOf(e.F), fmt.Sprintf("glyph %d shown with text %q reads back as %q (extract.Font) / %q (reader)", inf.G, string(toRunes(inf.T)), string(toRunes(e.Codes[i].T)), string(toRunes(e.Chars[i].T)))
+					return rkey(w, "text", e.F), fmt.Sprintf("glyph %d shown with text %q reads back as %q (extract.Font) / %q (reader)", inf.G, string(toRunes(inf.T)), string(toRunes(e.Codes[i].T)), string(toRunes(e.Chars[i].T)))
 				}
 				if abs(e.Codes[i].W-inf.W) > 1000 || abs(e.Chars[i].W-inf.W) > 1000 {
-					return "read/width/" + kindOf(e.F), fmt.Sprintf("glyph %d of width %d reads back with width %d (extract.Font) / %d (reader), 1e-6 units", inf.G, inf.W, e.Codes[i].W, e.Chars[i].W)
+					return rkey(w, "width", e.F), fmt.Sprintf("glyph %d of width %d reads back with width %d (extract.Font) / %d (reader), 1e-6 units", inf.G, inf.W, e.Codes[i].W, e.Chars[i].W)
 				}
 			}
 		}
